@@ -302,9 +302,11 @@ theorem read_field_pure {g : GeneRef} {σ : CanonMemo} (h : Reachable g σ) (che
 /-! ### the loaded region is a window on the chromosome -/
 
 /-- `set_reference_sequence(start, end, chr)` followed by the site look-up with offset `start` reads the same four
-    bases as a look-up on the whole chromosome, for every intron inside the window -/
+    bases as a look-up on the whole chromosome, for every intron inside the window — wherever the window ends: a window
+    (gene annotated) beyond the last base of the contig is clamped by the slice, and positions beyond the contig are
+    absent from the window exactly as they are absent from the chromosome -/
 theorem region_slice_invariant (chr : Seq) (start end_ : Int) (it : Iv)
-    (hs : 1 ≤ start) (he : end_ ≤ chr.length) (h1 : start ≤ it.1) (h2 : it.1 + 1 ≤ end_)
+    (hs : 1 ≤ start) (h1 : start ≤ it.1) (h2 : it.1 + 1 ≤ end_)
     (h3 : start < it.2) (h4 : it.2 ≤ end_) :
     siteRaw (setReferenceSequence chr start end_).1.refRegion start it = siteRaw chr 1 it := by
   have hmax : max 1 start = start := by omega
@@ -313,7 +315,7 @@ theorem region_slice_invariant (chr : Seq) (start end_ : Int) (it : Iv)
   have e3 : it.2 - 1 + 1 = (it.2 - 1 - 1) + 2 := by omega
   rw [e2, e3, pySlice_two _ _ (by omega), pySlice_two _ _ (by omega), pySlice_two _ _ (by omega),
     pySlice_two _ _ (by omega)]
-  rw [pySlice_range chr (start - 1) end_ (by omega) (by omega) he]
+  rw [pySlice_range_clamp chr (start - 1) end_ (by omega) (by omega)]
   rw [take2_drop_slice _ _ _ _ (by omega), take2_drop_slice _ _ _ _ (by omega)]
   have a1 : (start - 1).toNat + (it.1 - start).toNat = (it.1 - 1).toNat := by omega
   have a2 : (start - 1).toNat + (it.2 - start - 1).toNat = (it.2 - 1 - 1).toNat := by omega
@@ -338,9 +340,10 @@ theorem region_start_zero_witness :
 
 /-- hence the flag does not depend on which window of the chromosome the locus loaded (the per-locus `gene_info` of
     the read/model pass and the whole-chromosome `gene_info` of the extended annotation give the same answers), and
-    the window's memo starts empty -/
+    the window's memo starts empty.  No hypothesis on where the window ends (it may end beyond the contig) nor on
+    whether the introns lie inside the contig (beyond it both look-ups find no bases: `False` on either side). -/
 theorem flag_independent_of_region (chr : Seq) (start end_ : Int) (introns : List Iv) (st : Strand)
-    (hs : 1 ≤ start) (he : end_ ≤ chr.length)
+    (hs : 1 ≤ start)
     (hin : ∀ it ∈ introns, start ≤ it.1 ∧ it.1 + 1 ≤ end_ ∧ start < it.2 ∧ it.2 ≤ end_) :
     pureAnswer (setReferenceSequence chr start end_).1 introns st = pureAnswer ⟨chr, 1⟩ introns st ∧
     (setReferenceSequence chr start end_).2 = [] := by
@@ -349,7 +352,7 @@ theorem flag_independent_of_region (chr : Seq) (start end_ : Int) (introns : Lis
       canonCompute (setReferenceSequence chr start end_).1 it st = canonCompute ⟨chr, 1⟩ it st := by
     intro it hit
     obtain ⟨h1, h2, h3, h4⟩ := hin it hit
-    have := region_slice_invariant chr start end_ it hs he h1 h2 h3 h4
+    have := region_slice_invariant chr start end_ it hs h1 h2 h3 h4
     simp only [canonCompute]
     rw [show (setReferenceSequence chr start end_).1.start = start from by simp [setReferenceSequence]; omega, this]
   unfold pureAnswer
@@ -380,5 +383,13 @@ example : (addCanonicalInfoForModel ⟨witnessSeq, 1⟩ ⟨[(1, 4), (15, 18)], .
 example : (1 : Int) ≤ 3 ∧ (16 : Int) ≤ witnessSeq.length ∧
     pureAnswer (setReferenceSequence witnessSeq 3 16).1 [(5, 14)] .plus = true ∧
     (setReferenceSequence witnessSeq 3 16).1.refRegion = "AAGTCCCCCCAGTT".toList := by decide
+
+-- a window that ends beyond the 18-base contig (gene end 1000 in the GTF): the slice is clamped, the answers are the
+-- chromosome's; an "intron" (15, 25) reaching beyond the contig inside such a window answers False on both sides
+example : (1000 : Int) > witnessSeq.length ∧
+    (setReferenceSequence witnessSeq 3 1000).1.refRegion = "AAGTCCCCCCAGTTTT".toList ∧
+    pureAnswer (setReferenceSequence witnessSeq 3 1000).1 [(5, 14)] .plus = true ∧
+    pureAnswer (setReferenceSequence witnessSeq 3 1000).1 [(15, 25)] .plus = false ∧
+    pureAnswer ⟨witnessSeq, 1⟩ [(15, 25)] .plus = false := by decide
 
 end IsoVerif.Props.C18
